@@ -8,6 +8,7 @@ Numeric regime: a family of real TFP models; every leaf is computed *outside* li
 from the driver's own recipe (never from the model's wiring)."""
 from __future__ import annotations
 
+import jax
 import jax.numpy as jnp
 import numpy as np
 import tensorflow_probability.substrates.jax.bijectors as tfb
@@ -64,6 +65,25 @@ def gen_program(rng, nvars=None):
     return plan
 
 
+class TaggedValue(lsl.Value):
+    """A value node of a user-defined class that carries extra information in its state (the documented extension
+    point of NodeState)."""
+
+    def __init__(self, value, _name="", extra=None):
+        super().__init__(value, _name=_name)
+        self._extra = extra
+
+    @property
+    def state(self):
+        return lsl.NodeState(self.value, self.outdated, self._extra)
+
+    @state.setter
+    def state(self, state):
+        self._value = state.value
+        self._outdated = state.outdated
+        self._extra = state.extra
+
+
 class ProgramRun(GraphRun):
     """GraphRun whose distribution nodes may be attached to Vars with flags, and whose
     builder may get user-supplied total nodes."""
@@ -80,6 +100,8 @@ class ProgramRun(GraphRun):
                 t = Term(atoms[i % len(atoms)])
                 if p.get("wrapped"):
                     pending_val[i] = t
+                elif p.get("tagged"):
+                    self.nodes[i] = TaggedValue(t, _name=name, extra=f"tag{i}")
                 else:
                     self.nodes[i] = lsl.Value(t, _name=name)
             elif p["kind"] in ("c", "t"):
@@ -419,6 +441,34 @@ def model_family(name, per_obs=True, flags="exclusive"):
         draws = {"coef": lambda r: jnp.asarray([r.uniform(-1, 1) for _ in range(4)], jnp.float32),
                  "tau2": lambda r: jnp.float32(r.uniform(0.2, 2.0))}
         return model, recipe, draws, {}
+    if name == "uniform_gb":
+        # the deprecated GraphBuilder.transform with a default bijector that depends on another parameter:
+        # u ~ Uniform(0, hi) sampled on the unconstrained scale, hi ~ Gamma(4, 2), y ~ N(u, 1)
+        import warnings
+        yv = jnp.asarray([0.4, 1.1, 0.8], jnp.float32)
+        hi = lsl.param(jnp.float32(2.0), lsl.Dist(tfd.Gamma, concentration=4.0, rate=2.0), name="hi")
+        u = lsl.param(jnp.float32(0.8), lsl.Dist(tfd.Uniform, low=0.0, high=hi), name="u")
+        y = lsl.obs(yv, lsl.Dist(tfd.Normal, loc=u, scale=1.0), name="y")
+        for v in (hi, u, y):
+            v.dist_node.per_obs = per_obs
+        gb = lsl.GraphBuilder().add(y)
+        with warnings.catch_warnings():
+            warnings.simplefilter("ignore")
+            gb.transform(u)
+        model = gb.build_model()
+
+        def recipe(v):
+            t = jnp.float32(v["u_transformed"])
+            sg = jax.nn.sigmoid(t)
+            uu = v["hi"] * sg
+            return [
+                {"name": "hi", "v": _f(tfd.Gamma(4.0, 2.0).log_prob(v["hi"])), "has_var": True, "observed": False, "parameter": True},
+                # Uniform(0, hi) at u = hi * sigmoid(t) plus log |du/dt|: -log hi + log hi + log s + log(1 - s)
+                {"name": "u_transformed", "v": _f(jnp.log(sg) + jnp.log1p(-sg)), "has_var": True, "observed": False, "parameter": True},
+                {"name": "y", "v": _f(tfd.Normal(uu, 1.0).log_prob(yv)), "has_var": True, "observed": True, "parameter": False},
+            ]
+        draws = {"hi": lambda r: jnp.float32(r.uniform(1.0, 6.0)), "u_transformed": lambda r: jnp.float32(r.uniform(-2, 2))}
+        return model, recipe, draws, {}
     if name == "legacy_pit":
         # the legacy helpers: a probability integral transform of one parameter feeds the mean of the response
         m = lsl.Param(jnp.float32(0.3), lsl.Dist(tfd.Normal, loc=0.0, scale=2.0), name="m")
@@ -507,7 +557,7 @@ def model_family(name, per_obs=True, flags="exclusive"):
     raise KeyError(name)
 
 
-FAMILY = ["distreg", "distreg_smallscale", "auto_transformed", "linreg_flag", "linreg", "linreg_user_ll", "linreg_user_ll_pointwise", "linreg_both_flags", "linreg_noflags", "transformed", "mvn_degen", "hier_vector", "legacy_pit"]
+FAMILY = ["distreg", "distreg_smallscale", "auto_transformed", "linreg_flag", "linreg", "linreg_user_ll", "linreg_user_ll_pointwise", "linreg_both_flags", "linreg_noflags", "transformed", "mvn_degen", "hier_vector", "legacy_pit", "uniform_gb"]
 
 
 def numeric_trace(rng, name, nassign=3):
